@@ -2,6 +2,7 @@ package markdown
 
 import (
 	"path/filepath"
+	"reflect"
 	"regexp"
 	"strconv"
 	"strings"
@@ -158,67 +159,85 @@ func (r *WordRenderer) renderParagraph(node *ast.Paragraph) (ast.WalkStatus, err
 	return ast.WalkSkipChildren, nil
 }
 
+// inlineFormat 行内格式的累积状态：嵌套的强调、删除线、链接、代码各自贡献一个标志
+type inlineFormat struct {
+	bold, italic, strike, code, link bool
+}
+
+// textFormat 转换为文本格式；没有任何格式时返回nil
+func (f inlineFormat) textFormat() *document.TextFormat {
+	if f == (inlineFormat{}) {
+		return nil
+	}
+	format := &document.TextFormat{Bold: f.bold, Italic: f.italic, Strike: f.strike}
+	if f.link {
+		format.FontColor = "0000FF" // 蓝色，后续可以扩展为超链接
+	}
+	if f.code {
+		// 使用CodeChar样式的格式
+		format.FontFamily = "Consolas"
+		format.FontColor = "D73A49" // GitHub风格的红色
+	}
+	return format
+}
+
 // renderInlineContent 渲染内联内容（文本、强调、链接等）
 func (r *WordRenderer) renderInlineContent(node ast.Node, para *document.Paragraph) {
+	r.renderInlines(node, para, inlineFormat{})
+}
+
+// renderInlines 递归渲染内联节点：每个叶子文本生成一个Run，带上外层所有节点累积的格式，
+// 这样 **粗体中的 _斜体_、`代码` 和换行** 都不会丢失
+func (r *WordRenderer) renderInlines(node ast.Node, para *document.Paragraph, f inlineFormat) {
 	for child := node.FirstChild(); child != nil; child = child.NextSibling() {
 		switch n := child.(type) {
 		case *ast.Text:
 			text := r.textValue(n)
-			para.AddFormattedText(text, nil)
-			
+			addInlineText(para, text, f)
+
 			// 处理软换行（单个\n）
 			// goldmark将单个\n解析为多个Text节点，第一个节点的SoftLineBreak为true
 			// 在Markdown中，软换行通常应该被渲染为空格
 			// 硬换行（行尾两个空格或反斜杠）同样不能让前后两个词连在一起
 			if n.SoftLineBreak() || n.HardLineBreak() {
-				para.AddFormattedText(" ", nil)
+				addInlineText(para, " ", f)
 			}
 
 		case *ast.Emphasis:
-			text := r.extractTextContent(n)
 			// goldmark中，level=1是斜体，level=2是粗体
+			inner := f
 			if n.Level == 2 {
-				// 使用粗体格式
-				format := &document.TextFormat{Bold: true}
-				para.AddFormattedText(text, format)
+				inner.bold = true
 			} else {
-				// 使用斜体格式
-				format := &document.TextFormat{Italic: true}
-				para.AddFormattedText(text, format)
+				inner.italic = true
 			}
+			r.renderInlines(n, para, inner)
 
 		case *ast.CodeSpan:
-			text := r.extractTextContent(n)
-			// 使用CodeChar样式的格式
-			format := &document.TextFormat{
-				FontFamily: "Consolas",
-				FontColor:  "D73A49", // GitHub风格的红色
-			}
-			para.AddFormattedText(text, format)
+			inner := f
+			inner.code = true
+			addInlineText(para, r.extractTextContent(n), inner)
 
 		case *ast.Link:
-			text := r.extractTextContent(n)
 			// 简单处理链接，后续可以扩展为超链接
-			format := &document.TextFormat{
-				FontColor: "0000FF", // 蓝色
-			}
-			para.AddFormattedText(text, format)
+			inner := f
+			inner.link = true
+			r.renderInlines(n, para, inner)
 
 		case *ast.AutoLink:
 			// 自动链接 <http://...> 没有子节点，其可见文本就是链接本身
-			para.AddFormattedText(string(n.Label(r.source)), &document.TextFormat{
-				FontColor: "0000FF", // 蓝色
-			})
+			inner := f
+			inner.link = true
+			addInlineText(para, string(n.Label(r.source)), inner)
 
 		case *ast.Image:
 			r.renderImageInline(n, para)
+
 		case *extast.Strikethrough:
 			// 处理删除线
-			text := r.extractTextContent(n)
-			format := &document.TextFormat{
-				Strike: true,
-			}
-			para.AddFormattedText(text, format)
+			inner := f
+			inner.strike = true
+			r.renderInlines(n, para, inner)
 
 		default:
 			// 检查是否为行内数学公式
@@ -229,9 +248,28 @@ func (r *WordRenderer) renderInlineContent(node ast.Node, para *document.Paragra
 			// 对于其他类型，尝试提取文本内容
 			text := r.extractTextContent(n)
 			if text != "" {
-				para.AddFormattedText(text, nil)
+				addInlineText(para, text, f)
 			}
 		}
+	}
+}
+
+// addInlineText 向段落写入一段带格式的文本。goldmark会把同一段文本拆成几个相邻的Text节点
+// （例如遇到 [ ] 这些字符时），格式与前一个Run相同的文本并入前一个Run，
+// 这样一个格式片段仍然只生成一个Run
+func addInlineText(para *document.Paragraph, text string, f inlineFormat) {
+	para.AddFormattedText(text, f.textFormat())
+	last := len(para.Runs) - 1
+	if last < 1 {
+		return
+	}
+	prev, cur := &para.Runs[last-1], &para.Runs[last]
+	if prev.Properties == nil || prev.Break != nil || prev.Drawing != nil || prev.FieldChar != nil || prev.InstrText != nil {
+		return
+	}
+	if reflect.DeepEqual(prev.Properties, cur.Properties) {
+		prev.Text.Content += cur.Text.Content
+		para.Runs = para.Runs[:last]
 	}
 }
 
